@@ -563,7 +563,7 @@ func bucket(n int) int {
 }
 
 var specPrograms = pbt.Register(pbt.Spec[Program]{
-	Prop: "C01", Name: "programs",
+	Prop: "C01", Name: "programs", Parallel: 8,
 	Rule:  "rapid-generated lists of 1-40 typed write operations over all Write* methods (boundary-biased arguments, nil/empty slices, threshold lengths); non-trivial = program with >= 2 different operation kinds; distinct by produced bytes",
 	Quick: 3000, Thorough: 200000,
 	Draw: func(t *rapid.T) Program {
